@@ -144,6 +144,25 @@ def parse_dot(lines):
     return _ok(snodes=snodes, rnodes=rnodes, edges=edges)
 
 
+def _call(fn):
+    try:
+        return fn()
+    except core.MachineryFailure:
+        raise
+    except Exception as exc:
+        return "raised:" + type(exc).__name__
+
+
+def _refused(fn, exc_type):
+    try:
+        fn()
+    except exc_type:
+        return True
+    except Exception:
+        return False
+    return False
+
+
 def _ok(**kw):
     o = {"raised": False, "exc": "", "bad": ""}
     o.update(kw)
@@ -199,14 +218,29 @@ class World(object):
             substances = set(given)
         elif mode == "odict":
             substances = OrderedDict((n, sub(n)) for n in given)
+        elif mode == "dict":
+            substances = {n: sub(n) for n in given}
+        elif mode == "tuple":
+            substances = tuple(sub(n) for n in given) if comp else tuple(given)
+            rxns = tuple(rxns)
         else:
             raise core.MachineryFailure("unknown mode %r" % (mode,))
+        opt = h.get("opt") or {"sort": "default", "addmissing": False, "chk": "default"}
+        kw = {}
+        if opt["sort"] != "default":
+            kw["sort_substances"] = opt["sort"] == "yes"
+        if opt["addmissing"]:
+            kw["missing_substances_from_keys"] = True
+        if opt["chk"] == "none":
+            kw["checks"] = ()
+        elif opt["chk"] == "nodup":
+            kw["dont_check"] = {"duplicate"}
         try:
-            rs = self.RS(rxns, substances)
+            rs = self.RS(rxns, substances, **kw)
         except ValueError as exc:
             return {"raised": True, "exc": type(exc).__name__, "bad": "", "ss": [], "nr": 0}
         self.ws.append(rs)
-        self.checked.append(True)
+        self.checked.append(opt["chk"] == "default")
         return _ok(ss=list(rs.substances.keys()), nr=rs.nr)
 
     def _parts(self, i):
@@ -250,16 +284,25 @@ class World(object):
             self.checked.append(False)
         return _ok(yes=proj[0], no=proj[1])
 
+    def do_sort(self, h):
+        sys_ = self.ws[h["i"] - 1]
+        if h["how"] == "name":
+            sys_.sort_substances_inplace()
+        else:
+            sys_.sort_substances_inplace(key=lambda kv: [-ord(c) for c in kv[0]])
+        return _ok(ss=list(sys_.substances.keys()))
+
     def do_add(self, h):
         i, j = h["i"] - 1, h["j"] - 1
         a, b = self.ws[i], self.ws[j]
         a_rx, b_rx = list(a.rxns), list(b.rxns)
-        if h["how"] == "add":
-            new = a + b
+        other = list(b.rxns) if h["how"].endswith("-list") else b   # a plain list of reactions
+        if h["how"].startswith("add"):
+            new = a + other
             self.ws.append(new)
             self.checked.append(False)
         else:
-            a += b
+            a += other
             new = a
             self.checked[i] = False
         src = _match(new.rxns, [(1, a_rx), (2, b_rx)])
@@ -276,29 +319,32 @@ class World(object):
             return _ok(rx=[{"reac": dict(r.reac), "prod": dict(r.prod)} for r in sys_.rxns],
                        ss=list(sys_.substances.keys()))
         if kind == "graph":
-            parts = sys_.split(**self.kw(i))
-            split = []
-            for p in parts:
-                m = _match(p.rxns, [(1, sys_.rxns)])
-                if m is None:
-                    return _bad("foreign reaction")
-                split.append({"rx": sorted(k for _, k in m), "ss": sorted(p.substances.keys())})
-            split.sort(key=lambda t: min(t["rx"]) if t["rx"] else 0)
-            cat = sys_.categorize_substances(**self.kw(i))
             names = list(sys_.substances.keys()) + [ABSENT]
-            eff = {}
-            for s in names:
-                pairs = []
-                for ri, n in sys_.per_reaction_effect_on_substance(s).items():
-                    if _int(n) is None:
-                        return _bad("non-integer effect")
-                    pairs.append([ri + 1, _int(n)])
-                eff[s] = sorted(pairs)
-            return _ok(split=split,
-                       cat={k: sorted(v) for k, v in cat.items()},
-                       eq=sorted([a + 1, b + 1] for a, b in sys_.identify_equilibria()),
-                       part={s: sorted(ri + 1 for ri in sys_.substance_participation(s)) for s in names},
-                       eff=eff)
+
+            def f_split():
+                split = []
+                for p in sys_.split(**self.kw(i)):
+                    m = _match(p.rxns, [(1, sys_.rxns)])
+                    if m is None:
+                        raise core.MachineryFailure("foreign reaction in split part")
+                    split.append({"rx": sorted(k for _, k in m), "ss": sorted(p.substances.keys())})
+                split.sort(key=lambda t: min(t["rx"]) if t["rx"] else 0)
+                return split
+
+            def f_eff():
+                eff = {}
+                for s in names:
+                    eff[s] = sorted([ri + 1, _int(n)] for ri, n in sys_.per_reaction_effect_on_substance(s).items())
+                return eff
+            # each of the five queries is observed on its own: a field is its value or "raised:<Exception>"
+            return _ok(split=_call(f_split),
+                       cat=_call(lambda: {k: sorted(v) for k, v in sys_.categorize_substances(**self.kw(i)).items()}),
+                       eq=_call(lambda: sorted([a + 1, b + 1] for a, b in sys_.identify_equilibria())),
+                       part=_call(lambda: {s: sorted(ri + 1 for ri in sys_.substance_participation(s)) for s in names}),
+                       eff=_call(f_eff))
+        if kind == "order":
+            return _ok(names=list(sys_.substance_names()),
+                       arr=[_int(x) for x in sys_.as_per_substance_array(dict(arg))])
         if kind == "dot":
             from chempy.util.graph import rsys2dot
             return parse_dot(rsys2dot(sys_, rref0=arg["rref0"], include_inactive=bool(arg["inact"])))
@@ -317,15 +363,31 @@ class World(object):
             varied = _int_nested(var.tolist())
             if None in arr or None in dct.values() or None in idx.values() or varied is None:
                 return _bad("non-integer entry")
-            return _ok(arr=arr, dict=dct, idx=idx, vkeys=list(keys), varied=varied)
+            d = dict(arg["d"])
+            d_extra = dict(d)
+            d_extra[ABSENT] = 99
+            d_short = dict(d)
+            d_short.pop(next(iter(sys_.substances)))
+            a = list(arg["a"])
+            return _ok(arr=arr, dict=dct, idx=idx, vkeys=list(keys), varied=varied,
+                       names=list(sys_.substance_names()),
+                       arrlist=[_int(x) for x in sys_.as_per_substance_array(a)],
+                       arrextra=[_int(x) for x in sys_.as_per_substance_array(d_extra)],
+                       refused={"unk": _refused(lambda: sys_.as_per_substance_array(d_extra, raise_on_unk=True), KeyError),
+                                "size": _refused(lambda: sys_.as_per_substance_array(a + [1]), ValueError),
+                                "missing": _refused(lambda: sys_.as_per_substance_array(d_short), KeyError)},
+                       idxint=[_int(sys_.as_substance_index(k)) for k in range(len(sys_.substances))])
         if kind == "bounds":
-            ub = [_q(x) for x in sys_.upper_conc_bounds(dict(arg))]
+            conc = {s: v / float(arg["den"]) for s, v in arg["c"].items()}
+            if arg["form"] == "list":
+                conc = [conc[s] for s in sys_.substances]
+            ub = [_q(x) for x in sys_.upper_conc_bounds(conc)]
             if None in ub:
                 return _bad("unencodable")
             return _ok(ub=ub)
         if kind == "yields":
             from chempy.util.stoich import decompose_yields
-            y = OrderedDict((s, arg["y"][s]) for s in sorted(arg["y"]))
+            y = OrderedDict((s, arg["y"][s] / float(arg["den"])) for s in arg["korder"])
             k = decompose_yields(y, sys_.rxns)
             return _ok(k=[_q_round(x) for x in k])
         raise core.MachineryFailure("unknown query %r" % (kind,))
@@ -360,7 +422,7 @@ class World(object):
         return _ok(sum=sorted(m[:len(sum_.rxns)]), dup=sorted(m[len(sum_.rxns):]))
 
     def step(self, h):
-        fn = {"QueryCat": self.query_cat, "Make": self.make, "DoSplit": self.do_split, "DoSubset": self.do_subset, "DoAdd": self.do_add,
+        fn = {"QueryCat": self.query_cat, "DoSort": self.do_sort, "Make": self.make, "DoSplit": self.do_split, "DoSubset": self.do_subset, "DoAdd": self.do_add,
               "Query": self.query, "Query2": self.query2}.get(h["op"])
         if fn is None:
             raise core.MachineryFailure("unknown operation %r" % (h,))
@@ -417,15 +479,15 @@ def disagreement(h, o, exp):
             continue
         if k == "eq" and exp["kind"] == "graph" and not x["eqdef"]:
             continue
-        want = [[v, 1] for v in x["k"]] if (k == "k" and exp["kind"] == "yields") else x[k]
-        if not _eq(o[k], want):
+        if not _eq(o[k], x[k]):
             return "%s:%s" % (exp["kind"], k)
     return ""
 
 
 FN = {"graph": "split/categorize_substances/identify_equilibria/substance_participation/per_reaction_effect_on_substance",
       "dot": "chempy.util.graph.rsys2dot", "subset": "ReactionSystem.subset", "conv": "as_per_substance_array/dict/index/varied",
-      "bounds": "ReactionSystem.upper_conc_bounds", "yields": "decompose_yields", "add": "ReactionSystem.__add__",
+      "bounds": "ReactionSystem.upper_conc_bounds", "order": "substance_names/as_per_substance_array",
+      "DoSort": "ReactionSystem.sort_substances_inplace", "yields": "decompose_yields", "add": "ReactionSystem.__add__",
       "eq": "ReactionSystem.__eq__", "concat": "ReactionSystem.concatenate", "concatn": "ReactionSystem.concatenate", "shape": "ReactionSystem",
       "Make": "ReactionSystem()", "DoSplit": "ReactionSystem.split", "DoSubset": "ReactionSystem.subset",
       "DoAdd": "ReactionSystem.__add__/__iadd__"}
@@ -490,7 +552,11 @@ def _slice(ctx, cfg, n_pick, actions, via_tlc=False, min_cases=50):
             ctx.skip("unencodable")
         elif why:
             last = hist[-1]
-            ctx.violation({"fn": FN.get(last.get("kind", last["op"]), last["op"]), "clause": why, "cls": c["cls"]},
+            fld = obs[-1].get(why.split(":")[-1])
+            key = {"fn": FN.get(last.get("kind", last["op"]), last["op"]), "clause": why, "cls": c["cls"]}
+            if isinstance(fld, str) and fld.startswith("raised:"):
+                key["exc"] = fld
+            ctx.violation(key,
                           {"direction": "spec->code", "case": c, "observed": obs[-1], "expected": c["exp"],
                            "tlc_cfg": "RSysGraph_MC_%s.cfg" % cfg})
     _judge_traces(ctx, to_tlc, "spec->code")
@@ -537,8 +603,9 @@ def _rand_make(rng, with_comp=False):
             r = _rand_rxn(rng, sub)
             if r not in rx:
                 rx.append(r)
-    keys = sorted(set(k for r in rx for k in list(r["reac"]) + list(r["prod"])))
-    mode = rng.choice(["list", "odict"]) if with_comp else rng.choice(["deduce", "list", "str", "set", "odict"])
+    keys = sorted(set(k for r in rx for part in ("reac", "prod", "ireac", "iprod") for k in r.get(part, {})))
+    mode = rng.choice(["list", "odict", "tuple", "dict"]) if with_comp else \
+        rng.choice(["deduce", "list", "str", "set", "odict", "dict", "tuple"])
     given = []
     comp = {}
     if mode != "deduce":
@@ -558,7 +625,23 @@ def _rand_make(rng, with_comp=False):
             if not c and rng.random() < 0.7:
                 c["1"] = 1
             comp[s] = c
-    return {"op": "Make", "rx": rx, "mode": mode, "given": given, "comp": comp}
+    opt = {"sort": "default", "addmissing": False, "chk": "default"}
+    if not with_comp and mode != "deduce":
+        x = rng.random()
+        if x < 0.15:
+            opt["sort"] = "yes"
+        elif x < 0.25 and mode in ("list", "odict", "dict", "tuple"):
+            opt["sort"] = "no"
+        elif x < 0.40 and keys and mode in ("list", "odict", "tuple") and len(given) > 1:
+            drop = rng.choice(keys)
+            given = [s for s in given if s != drop]
+            opt["addmissing"] = True
+            opt["sort"] = rng.choice(["default", "yes"])
+    if not with_comp and rng.random() < 0.1:
+        opt["chk"] = rng.choice(["nodup", "none"])
+        if rx and rng.random() < 0.5:
+            rx = rx + [rx[0]]
+    return {"op": "Make", "rx": rx, "mode": mode, "given": given, "comp": comp, "opt": opt}
 
 
 def gen_history(arg):
@@ -579,7 +662,8 @@ def gen_history(arg):
         if not do(_rand_make(rng, with_comp=True)) or not w.ws:
             return hist, obs
         for _ in range(rng.randint(1, 3)):
-            c0 = {s: rng.randint(0, 9) for s in w.ws[0].substances}
+            c0 = {"c": {s: rng.randint(0, 9) for s in w.ws[0].substances}, "den": rng.choice([1, 1, 2, 4, 8]),
+                  "form": rng.choice(["dict", "list"])}
             if not do({"op": "Query", "i": 1, "kind": "bounds", "arg": c0}):
                 break
         return hist, obs
@@ -603,10 +687,18 @@ def gen_history(arg):
                             {"kind": "nprod", "s": "", "n": rng.randint(1, 2)}])
             h = {"op": "DoSubset", "i": i, "p": p} if rng.random() < 0.5 else {"op": "Query", "i": i, "kind": "subset", "arg": p}
         elif x < 0.45:
-            how = rng.choice(["add", "iadd"])
-            if (how == "iadd" and i == j) or sys_.nr + w.ws[j - 1].nr > 10:
+            how = rng.choice(["add", "iadd", "add-list", "iadd-list"])
+            if (how.startswith("iadd") and i == j) or sys_.nr + w.ws[j - 1].nr > 10:
+                continue
+            if how.endswith("-list") and not set().union(*[r.keys() for r in w.ws[j - 1].rxns] or [set()]) <= set(sys_.substances):
                 continue
             h = {"op": "DoAdd", "i": i, "j": j, "how": how}
+        elif x < 0.50:
+            h = {"op": "DoSort", "i": i, "how": rng.choice(["name", "rev"])}
+        elif x < 0.54:
+            if not names:
+                continue
+            h = {"op": "Query", "i": i, "kind": "order", "arg": {s: rng.randint(0, 99) for s in names}}
         elif x < 0.62:
             h = {"op": "Query", "i": i, "kind": "graph", "arg": []}
         elif x < 0.70:
@@ -625,7 +717,9 @@ def gen_history(arg):
             keys = sorted(set.union(*[r.keys() for r in sys_.rxns]))
             net = sys_.net_stoichs(keys)
             y = {s: int(sum(k[ri] * int(net[ri][ci]) for ri in range(sys_.nr))) for ci, s in enumerate(keys)}
-            h = {"op": "Query", "i": i, "kind": "yields", "arg": {"k": k, "y": y}}
+            ko = list(keys)
+            rng.shuffle(ko)
+            h = {"op": "Query", "i": i, "kind": "yields", "arg": {"k": k, "y": y, "den": rng.choice([1, 2, 4]), "korder": ko}}
         elif x < 0.96:
             h = {"op": "Query2", "i": i, "j": j, "kind": rng.choice(["add", "eq"])}
         else:
@@ -667,36 +761,38 @@ def run(ctx):
     sfx = "q" if q else "t"
     # invariants of the specification on deeper histories, history hidden behind a VIEW
     # (vacuity of the actions is checked on the history slice, which has the same Next)
-    ctx.tlc("RSysGraph_MC", "RSysGraph_MC_inv_%s.cfg" % sfx, timeout=1500, workers=8)
+    # (quick: the hist_q slice below has the same bounds and checks the same invariants on every history)
+    if not q:
+        ctx.tlc("RSysGraph_MC", "RSysGraph_MC_inv_t.cfg", timeout=1500, workers=8)
     t0 = _t(ctx, "invariants", t0)
     # (vacuity guard by -coverage only where an action is specific to the slice; it slows TLC down)
     _slice(ctx, "ctor_" + sfx, None if not q else 1000, [])
-    _slice(ctx, "graph_" + sfx, 2000 if q else None, [], min_cases=2000)
+    _slice(ctx, "graph_" + sfx, 1500 if q else None, [], min_cases=2000)
     # every ordering of up to 6 reactions of the chained shape whose split needs transitive fusion
-    _slice(ctx, "chain_" + sfx, None, [], min_cases=2000)
+    _slice(ctx, "chain_" + sfx, None, [], min_cases=600)
     t0 = _t(ctx, "ctor+graph+chain", t0)
     # the reaction graph as an object: rsys2dot output parsed back into nodes/edges (catalog with two
     # reactions carrying inactive parts; include_inactive True/False); graph queries on the same systems
-    _slice(ctx, "dot_" + sfx, 1500 if q else None, [], min_cases=1000)
+    _slice(ctx, "dot_" + sfx, 1000 if q else None, [], min_cases=1000)
     t0 = _t(ctx, "dot", t0)
     if q:
-        _slice(ctx, "subyld_q", 2500, [], min_cases=2000)
+        _slice(ctx, "subyld_q", 1500, [], min_cases=2000)
     else:
         _slice(ctx, "subset_t", None, [])
         _slice(ctx, "yields_t", None, [])
-    _slice(ctx, "pair_" + sfx, 2500 if q else None, ["GenQuery2"])
-    _slice(ctx, "conv_" + sfx, 2500 if q else None, [], min_cases=1000)
+    _slice(ctx, "pair_" + sfx, 1500 if q else None, ["GenQuery2"])
+    _slice(ctx, "conv_" + sfx, 1000 if q else None, [], min_cases=1000)
     # concatenate over three systems (every ordering), directly and after split/subset/add steps
-    _slice(ctx, "cat3_" + sfx, 2500 if q else 30000, ["GenQueryCat"])
+    _slice(ctx, "cat3_" + sfx, 1000 if q else 30000, ["GenQueryCat"])
     t0 = _t(ctx, "subset+pair+conv", t0)
-    _slice(ctx, "bounds_" + sfx, 1500 if q else None, [], min_cases=1000)
+    _slice(ctx, "bounds_" + sfx, 1000 if q else None, [], min_cases=1000)
     t0 = _t(ctx, "bounds", t0)
-    _slice(ctx, "hist_" + sfx, 1500 if q else 12000, ["PickRx", "GenMake", "GenSplit", "GenSubset", "GenAdd", "GenQuery", "GenQueryCat"], via_tlc=True)
+    _slice(ctx, "hist_" + sfx, 1200 if q else 12000, ["PickRx", "GenMake", "GenSplit", "GenSubset", "GenAdd", "GenQuery", "GenQueryCat"], via_tlc=True)
     if not q:
         _slice(ctx, "hist2_t", 12000, [], via_tlc=True)
     t0 = _t(ctx, "histories", t0)
     ctx.exhaustive = not q
-    _code_to_spec(ctx, 800 if q else 12000)
+    _code_to_spec(ctx, 500 if q else 12000)
     _t(ctx, "seeded", t0)
 
 
